@@ -172,54 +172,54 @@ for t in INTS:
     for fam, tier, fd in fams:
         H(f"c09_{tier}_dec_{t}_f{fam}", "C09", f"c09::dec_{t}::<{fam}, _>",
           f"{t} formatted as decimal response data: an independent <NR1> decoder returns the value ({fd})", f"{t}: {fd}",
-          cap_s=(900 if tier == "q" else 3600), mem_gb=6, unwind=24, sample=(t == "u8"))
+          cap_s=(900 if tier == "q" else 3600), mem_gb=3, unwind=24, sample=(t == "u8"))
     for radix in (16, 8, 2):
         small = not wide
         tier = "q" if (small or radix == 16) else "ta"
         H(f"c09_{tier}_radix{radix}_{t}", "C09", f"c09::int_nondecimal::<{t}, {radix}, _>",
           f"{t} (non-negative) formatted as #{'H' if radix == 16 else 'Q' if radix == 8 else 'B'} response data: an independent "
-          f"shift decoder returns the value", f"every non-negative {t}", cap_s=(900 if tier == "q" else 3600), mem_gb=6,
+          f"shift decoder returns the value", f"every non-negative {t}", cap_s=(900 if tier == "q" else 3600), mem_gb=3,
           unwind=(20 if small else 70))
 H("c09_q_bool_sentinels", "C09", "c09::bool_and_sentinels", "bool -> 0/1; NaN -> 9.91E+37, +-infinity -> +-9.9E+37 exactly, "
   "for f32 and f64", "both bools; every non-finite f32/f64 bit pattern", cap_s=300, mem_gb=3, unwind=12)
-for n, q, tier in ((0, 0, "q"), (1, 0, "q"), (2, 0, "q"), (3, 0, "q"), (4, 0, "t"), (5, 0, "ta"), (6, 0, "ta"),
-                   (1, 1, "q"), (2, 1, "q"), (3, 1, "q"), (3, 2, "t"), (4, 2, "ta")):
+for n, q, tier in ((0, 0, "q"), (1, 0, "q"), (2, 0, "q"), (3, 0, "t"), (4, 0, "t"), (5, 0, "ta"), (6, 0, "ta"),
+                   (1, 1, "q"), (2, 1, "q"), (3, 1, "t"), (3, 2, "t"), (4, 2, "ta")):
     qd = "without a double quote" if q == 0 else f"holding {q} double quote(s)"
     H(f"c09_{tier}_string_n{n}_q{q}_dec", "C09", f"c09::string::<{n}, {q}, {n + 2 + q}, false, _>",
       f"ASCII byte string of {n} bytes {qd}: the quoted response decodes (independent un-doubling decoder) to the original "
-      f"bytes", f"all ASCII strings of {n} bytes {qd}", cap_s=(900 if tier == "q" else 3600), mem_gb=(6 if n < 4 else 12),
+      f"bytes", f"all ASCII strings of {n} bytes {qd}", cap_s=(900 if tier == "q" else 3600), mem_gb=(4 if n < 4 else 10),
       unwind=n * 2 + 8, stubset="ascii")
     if q == 0:
         H(f"c09_{tier}_string_n{n}_q{q}_own", "C09", f"c09::string::<{n}, {q}, {n + 2 + q}, true, _>",
           f"ASCII byte string of {n} bytes {qd}: the response re-lexes (own parser) to one string element with the original "
           f"bytes", f"all ASCII strings of {n} bytes {qd}", cap_s=(900 if tier == "q" else 3600),
-          mem_gb=(6 if n < 4 else 12), unwind=n * 2 + 8, stubset="ascii")
-for n, q in ((1, 1), (2, 1)):
+          mem_gb=(4 if n < 4 else 10), unwind=n * 2 + 8, stubset="ascii")
+for n, q in ((1, 1),):
     H(f"c09_q_kf14_string_n{n}_q{q}_own", "C09", f"c09::string::<{n}, {q}, {n + 2 + q}, true, _>",
       f"WITNESS of known finding F14: ASCII string of {n} bytes holding a double quote comes back from the own parser with "
       f"the quote still doubled (tokens are zero-copy slices of the input)", f"all ASCII strings of {n} bytes with {q} "
-      f"double quote(s)", cap_s=900, mem_gb=8, unwind=n * 2 + 8, stubset="ascii")
+      f"double quote(s)", cap_s=900, mem_gb=6, unwind=n * 2 + 8, stubset="ascii")
 for n in (0, 1, 5, 9, 10, 12):
     m = 2 + len(str(n)) + n
     H(f"c09_q_block_n{n}", "C09", f"c09::block::<{n}, {m}, _>", f"definite-length block of {n} arbitrary bytes: header "
       f"states the length with the right digit count, payload identical, own parser returns the payload",
-      f"every payload of {n} bytes (header 1 -> 2 length digits at 10)", cap_s=900, mem_gb=6, unwind=max(n + 6, 24))
+      f"every payload of {n} bytes (header 1 -> 2 length digits at 10)", cap_s=900, mem_gb=2, unwind=max(n + 6, 24))
 for n in (1, 3, 6, 12):
     H(f"c09_q_char_n{n}", "C09", f"c09::char_expr::<{n}, {n + 2}, true, _>", f"Character response data of {n} bytes is "
-      f"emitted verbatim", f"all valid character data of {n} bytes", cap_s=900, mem_gb=6, unwind=n + 8)
+      f"emitted verbatim", f"all valid character data of {n} bytes", cap_s=900, mem_gb=2, unwind=n + 8)
 for n in (0, 1, 3, 6):
     H(f"c09_q_expr_n{n}", "C09", f"c09::char_expr::<{n}, {n + 2}, false, _>", f"Expression response data of {n} bytes is "
       f"emitted in parentheses and read back by the own parser (lexer + Expression::try_from)",
-      f"all valid expression content of {n} bytes", cap_s=900, mem_gb=6, unwind=n + 8)
-for l, tier in ((0, "q"), (1, "q"), (2, "q"), (3, "ta")):
+      f"all valid expression content of {n} bytes", cap_s=900, mem_gb=2, unwind=n + 8)
+for l, tier in ((0, "q"), (1, "q"), (2, "t"), (3, "ta")):
     H(f"c09_{tier}_list_l{l}", "C09", f"c09::list::<{l}, _>", f"ArrayVec of {l} u16 values: comma-joined decimal elements in "
-      f"order; empty list -> error", f"all u16 element values", cap_s=(1200 if tier == "q" else 3600), mem_gb=8, unwind=24)
-for ml, xl, tier in ((2, 0, "q"), (1, 1, "t"), (3, 0, "t"), (3, 2, "ta")):
+      f"order; empty list -> error", f"all u16 element values", cap_s=(1200 if tier == "q" else 3600), mem_gb=5, unwind=24)
+for ml, xl, tier in ((1, 0, "q"), (2, 0, "t"), (1, 1, "t"), (3, 0, "t"), (3, 2, "ta")):
     H(f"c09_{tier}_error_item_m{ml}_x{xl}", "C09", f"c09::error_item::<{ml}, {xl}, _>", f"error-queue item: custom error, "
       f"any number, {ml}-byte symbolic printable message" + (f", {xl}-byte symbolic extended text" if xl else "") +
       ": formatted as code,\"message[;extended]\": the code decodes to the number, the text is a well-formed quoted "
       "string (quotes doubled) that decodes to the message", "all i16 numbers; all printable message / extended bytes "
-      "(incl. the double quote)", cap_s=(900 if tier == "q" else 3600), mem_gb=(10 if tier == "q" else 16), unwind=16,
+      "(incl. the double quote)", cap_s=(900 if tier == "q" else 3600), mem_gb=(6 if tier == "q" else 16), unwind=16,
       also=["C13"], stubset="ascii")
 H("c09_q_std_messages_plain", "C09", "c09::std_messages_plain", "every standard error message is printable ASCII without a "
   "double quote (so formatting a standard error item is the custom-message case)", "all standard variants", cap_s=600,
@@ -382,7 +382,8 @@ for e, d in ENUMS.items():
         H(f"c20_q_roundtrip_{e.lower()}_v{vi}", "C20", f"c20::roundtrip::<c20::{e}, {vi}, _>",
           f"{{{d}}}: variant #{vi} ({d.split('|')[vi]}) reports its mnemonic; its response text is character data and "
           f"selects the same variant (from_mnemonic and through the real lexer + TryFrom)", "one variant per instance; "
-          "all variants of the family are instantiated", cap_s=300, mem_gb=3, unwind=16, also=["C09"])
+          "all variants of the family are instantiated", cap_s=300, mem_gb=3, unwind=16,
+          also=(["C09"] if (e, vi) in (("E1", 0), ("E1", 3), ("E1", 4), ("E4", 2)) else []))
 
 
 PROPS = {
@@ -603,6 +604,31 @@ PROPS["C08"] = {
                   "accept matrix enumerates every (target, element type) pair with symbolic payloads.",
     "level_note": "Trusted: Kani/CBMC/CaDiCaL; lexical-core's float parser (stubbed by contract; the literal->float "
                   "rounding half of C08 is not claimed); keyword tables in checks/c08.rs.",
+}
+
+PROPS["C09"] = {
+    "bounds": {"quick": "all ten integer types in decimal (8/16-bit: every value; 32/64-bit: |v| < 10^5 and within 10^5 of "
+                        "MIN/MAX) and in #H (every non-negative value; #Q/#B for 8/16-bit); bool; NaN/infinity sentinels; "
+                        "ASCII strings of 0..2 bytes (every content incl. quotes); blocks of 0,1,5,9,10,12 bytes; "
+                        "character data 1,3,6,12 bytes; expressions 0,1,3,6 bytes; lists of 0..1 u16; custom error items "
+                        "with a 1-byte message; enum variants (C20 family)",
+               "thorough": "strings up to 4 bytes (5,6 attempted); lists of 2 (3 attempted); error items with 2-3 byte "
+                           "messages and with extended text; #Q/#B and the full decimal range of 32/64-bit integers "
+                           "attempted under a 1 h cap each"},
+    "outside": "NOT APPLICABLE PART: finite floats bit-for-bit (lexical-core's shortest-round-trip printer; its parser "
+               "counterpart does not fit the solver even for 3-byte literals); the full 32/64-bit decimal range (rule 3 of "
+               "DESIGN.md: a multiplicative decoder over 64 bits does not finish); own-parser round trip of integers, "
+               "booleans and character data is by composition (the decoder accepts only well-formed <NR1>/#H../character "
+               "data, C04 decides how the lexer reads such text, C07 its value) and is re-run end to end only for strings, "
+               "blocks and expressions, whose response has a concrete length and dispatch byte",
+    "assumptions": ["<[u8]>::is_ascii is the byte loop of its documentation (stub; core's word-at-a-time version is "
+                    "intractable for CBMC)"],
+    "level_text": "Bounded model checking of the real formatters with the value symbolic: the emitted bytes are decoded by "
+                  "independent decoders (NR1, shift-based #H/#Q/#B, un-doubling string decoder, block header) and, for "
+                  "strings, blocks and expressions, re-lexed by the library's own Tokenizer + TryFrom; one known finding "
+                  "(F14, own parser returns strings with quotes still doubled) is kept as a witness harness.",
+    "level_note": "Trusted: Kani/CBMC/CaDiCaL; the decoders in checks/c09.rs; lexical-core's integer writer is real code "
+                  "under test; the float printer is outside the claim.",
 }
 
 # properties whose check is still being built (kept current as the work proceeds)
